@@ -18,7 +18,10 @@ extra = {'C13-B': ['C13', 'C16'], 'C05-B': ['C17'], 'C17-B': ['C17'], 'C02-A': [
          # round 8: a refused set that changes the target is C11's (and C10's) business -- C01 reads the target back from
          # the daemon; a quit that is not serialized is C10's and leaves workers behind for C08; a redirector handler that
          # keeps writing to a replaced stream is C17's
-         'C01-L': ['C01', 'C11'], 'C02-L': ['C02', 'C10'], 'C20-L': ['C20', 'C17']}
+         'C01-L': ['C01', 'C11'], 'C02-L': ['C02', 'C10'], 'C20-L': ['C20', 'C17'],
+         # round 9: C01-M is the mechanism of C04-K (a child lost at spawn: C04's books); C02-M and C05-M show on a real
+         # circusd that is signalled (C08's cases); C04-M lets requests in during the periodic check (C10's monitor)
+         'C01-M': ['C01', 'C04'], 'C02-M': ['C02', 'C08'], 'C05-M': ['C05', 'C08'], 'C04-M': ['C04', 'C10']}
 rows = []
 import concurrent.futures as cf
 
